@@ -477,6 +477,8 @@ func (g *gen) stmt() *pstmt {
 		case p < 96 && len(g.callees) > 0 && g.inLoop == 0:
 			c := g.callees[r.Intn(len(g.callees))]
 			s := &pstmt{kind: "call", name: c.name}
+			usedOut := map[string]bool{}
+			aliased := false
 			for _, pa := range c.params {
 				if pa.mode == "IN" {
 					a := g.intExpr(1)
@@ -487,11 +489,21 @@ func (g *gen) stmt() *pstmt {
 					s.args = append(s.args, a)
 				} else {
 					v := g.pickInt()
+					for tries := 0; usedOut[v] && tries < 20; tries++ {
+						v = g.pickInt()
+					}
+					if usedOut[v] {
+						aliased = true // not enough distinct variables: passing one variable to two OUT/INOUT parameters is ambiguous
+					}
+					usedOut[v] = true
 					s.args = append(s.args, vr(v))
 					if pa.mode == "OUT" {
 						s.preNull = append(s.preNull, v)
 					}
 				}
+			}
+			if aliased {
+				continue
 			}
 			g.feat["nested-call"] = true
 			return s
@@ -554,6 +566,9 @@ func genProc(rnd *rand.Rand, idx int, callees []*proc, feat map[string]bool, isC
 	np := 1 + rnd.Intn(3)
 	for i := 0; i < np; i++ {
 		mode := []string{"IN", "IN", "OUT", "INOUT"}[rnd.Intn(4)]
+		if isCallee {
+			mode = "IN" // known finding nested-call-param-state-persists (via=domain): callees take IN parameters only
+		}
 		name := fmt.Sprintf("%sa%d", g.pfx, i+1)
 		p.params = append(p.params, param{name: name, mode: mode})
 		g.ints = append(g.ints, name)
